@@ -28,6 +28,11 @@ pub fn library() -> Vec<PkgSpec> {
         PkgSpec::new("t:vrc", None, &[("a:b/i@1.0.0-rc.1", i(&["f"]))], &o),
         // conflicting definition of f on the 0.2 track
         PkgSpec::new("t:v022bad", None, &[("a:b/i@0.2.2", Ty::inst(&[("f", fp.clone())]))], &o),
+        // tracks whose textual key is a prefix of another track's (0.2 / 0.20, 1 / 10)
+        PkgSpec::new("t:v0201", None, &[("a:b/i@0.20.1", i(&["f"]))], &o),
+        PkgSpec::new("t:v1020", None, &[("a:b/i@10.2.0", i(&["f"]))], &o),
+        // multi-digit patch on the 0.2 track
+        PkgSpec::new("t:v0210", None, &[("a:b/i@0.2.10", i(&["f"]))], &o),
         // provider of a 1.x interface, for satisfied slots
         PkgSpec::new("t:prov", None, &[], &[("a:b/i@1.3.0", i(&["f", "h"]))]),
     ]
@@ -46,17 +51,17 @@ pub fn universe(prop: &'static str, tier: Tier) -> Universe {
     u.define_names = vec![];
     u.names = classify_names(&["o", "a:b/i@1.3.0", "a:b/i@0.2.1", "x", "y", "e1"]);
     u.max_nodes = tier.pick(5, 6);
-    u.max_pkgs = 10;
+    u.max_pkgs = 13;
     u.ops = ["Instantiate", "Alias", "Import", "SetArg", "Export"].into_iter().collect();
     u
 }
 
 pub fn seeds() -> Vec<Vec<Op>> {
-    let reg: Vec<Op> = (0..10).map(Op::Register).collect();
+    let reg: Vec<Op> = (0..13).map(Op::Register).collect();
     let with = |ops: Vec<Op>| -> Vec<Op> { reg.iter().cloned().chain(ops).collect() };
     vec![
         with(vec![]),
-        with(vec![Op::Instantiate(9)]),
+        with(vec![Op::Instantiate(12)]),
         with(vec![Op::Instantiate(0), Op::Instantiate(3)]),
     ]
 }
